@@ -412,6 +412,7 @@ def r_asfxp(a):
 
 
 REF = {
+    "snark_div": r_floordiv,
     "unpack5": r_unpack5, "ite_bits": r_ite_bits, "asfxp": r_asfxp,
     "lazy_lt0": _lazy0(lambda a, b: _cmp(_op.lt)(a, b)), "lazy_eq0": _lazy0(lambda a, b: _cmp(_op.eq)(a, b)),
     "lt_k": lambda a: _cmp(_op.lt)(a, 2) if not isinstance(_num(a), RB) else (_ for _ in ()).throw(RefAny()),
@@ -540,7 +541,15 @@ def _i_ign_on(a):
     return _scalar(a) + 0
 
 
+def _intwire(a):
+    if not isinstance(a, H.rt.LinComb):
+        raise TypeError("integer secret expected")
+    return a
+
+
 IMPL = {
+    # a @snark-wrapped function called from inside the program (its arguments become public inputs, its result a public output)
+    "snark_div": lambda a, b: H.rt.PrivVal(H.rt.snark(lambda u, v: u // v)(int(_intwire(a).value), int(_intwire(b).value))),
     # bits that went through a selection (plain integer wires, no longer boolean-typed) and a 3-bit field unpacked from them;
     # an integer secret re-interpreted as a fixed-point representation (the SAME wire under another type)
     "unpack5": lambda l: __import__("pysnark.pack", fromlist=["x"]).PackIntMod(5).unpack(_list_of(l), 0),
@@ -589,7 +598,7 @@ IMPL = {
     "bitlen_up": _i_bitlen_up,
 }
 
-ARITY = {"unpack5": 1, "ite_bits": 3, "asfxp": 1, "lazy_lt0": 3, "lazy_eq0": 3, "lt_k": 1, "add_k": 1, "assert_ge_k": 1, "lshift_s": 2, "rshift_s": 2, "lazy_loop": 5, "mixbits": 1, "ign_on": 1, "repack": 1, "add": 2, "sub": 2, "mul": 2, "neg": 1, "abs": 1, "lt": 2, "le": 2, "eq": 2, "ne": 2, "and": 2, "or": 2, "xor": 2, "not": 1,
+ARITY = {"snark_div": 2, "unpack5": 1, "ite_bits": 3, "asfxp": 1, "lazy_lt0": 3, "lazy_eq0": 3, "lt_k": 1, "add_k": 1, "assert_ge_k": 1, "lshift_s": 2, "rshift_s": 2, "lazy_loop": 5, "mixbits": 1, "ign_on": 1, "repack": 1, "add": 2, "sub": 2, "mul": 2, "neg": 1, "abs": 1, "lt": 2, "le": 2, "eq": 2, "ne": 2, "and": 2, "or": 2, "xor": 2, "not": 1,
          "ite": 3, "floordiv": 2, "mod": 2, "mkarr": 3, "mkarr_k": 2, "get": 2, "set": 3, "arr_add": 2, "arr_sub": 2, "arr_scale": 2,
          "arr_adds": 2, "arr_ite": 3, "arr_assert_eq": 2, "lincomb": 4, "scalar_mul": 2, "vector_sub": 2, "tobits3": 1, "frombits": 1,
          "bit0": 1, "bit2": 1, "pack_bi": 2, "unpack_bi": 1, "packbool": 1, "assert_lt": 2, "assert_eq": 2, "assert_ne": 2,
@@ -607,6 +616,7 @@ for _f, _names in {
     for _n in _names:
         FEATURE[_n] = _f
 FEATURE["repack"] = "pack"
+FEATURE["snark_div"] = "snark"
 FEATURE["unpack5"] = "pack"
 FEATURE["ite_bits"] = "select"
 FEATURE["asfxp"] = "retype"
@@ -617,7 +627,7 @@ FEATURE["add_k"] = "const"
 FEATURE["assert_ge_k"] = "const"
 
 # ops the soundness pass leaves out (results covered by known findings of C02: unconstrained quotient)
-UNSOUND_KNOWN = {"floordiv", "mod", "lazy_floordiv", "lshift_s", "rshift_s", "lazy_loop"}
+UNSOUND_KNOWN = {"snark_div", "floordiv", "mod", "lazy_floordiv", "lshift_s", "rshift_s", "lazy_loop"}
 # statements whose first register argument is modified in place
 INPLACE = {"set": 0}
 
@@ -870,6 +880,8 @@ def arg_ok(op, pos, t):
         return t == "L"
     if op == "lazy_loop":
         return t == "B" if pos == 0 else t == "I"
+    if op == "snark_div":
+        return t == "I"
     if op == "unpack5":
         return t == "L"
     if op == "ite_bits":
@@ -973,7 +985,7 @@ def _arg_choices(op, types, must_use):
 FIRST = [("mkarr", 0, 1, 0), ("mkarr", 3, 0, 1), ("mkarr", 3, 1, 3), ("mkarr", 2, 0, 2), ("mkarr_k", 0, 1), ("mkarr_k", 3, 3),
          ("lt", 0, 1), ("eq", 0, 1), ("lt", 3, 0), ("le", 0, 3), ("mul", 0, 1), ("mul", 3, 0), ("mul", 2, 0), ("mul", 3, 2),
          ("add", 0, 3), ("add", 2, 2), ("sub", 0, 1), ("tobits3", 0), ("ite", 2, 0, 1), ("ite", 2, 0, 3), ("not", 2),
-         ("floordiv", 0, 1), ("neg", 3), ("mixbits", 2), ("pack_bi", 2, 0), ("lshift_s", 0, 4), ("ign_on", 0), ("add_k", 0), ("lt_k", 3), ("ite_bits", 2, 0, 1), ("asfxp", 0)]
+         ("floordiv", 0, 1), ("neg", 3), ("mixbits", 2), ("pack_bi", 2, 0), ("lshift_s", 0, 4), ("ign_on", 0), ("add_k", 0), ("lt_k", 3), ("ite_bits", 2, 0, 1), ("asfxp", 0), ("snark_div", 0, 1)]
 
 
 THIRD_OPS = ["get", "set", "lazy_get", "ite", "lt", "frombits", "unpack_bi", "assert_eq", "add", "mul"]
@@ -1005,7 +1017,7 @@ def enumerate_from(first, depth, next_ops, cross_only=True, third_ops=None):
 
 
 FIRST_OPS = ["mkarr", "mkarr_k", "lt", "eq", "mul", "add", "tobits3", "ite", "and", "not", "sub"]
-NEXT_OPS = ["unpack5", "ite_bits", "asfxp", "lazy_lt0", "lazy_eq0", "lt_k", "add_k", "assert_ge_k", "lshift_s", "rshift_s", "lazy_loop", "ign_on", "get", "set", "arr_ite", "arr_scale", "arr_add", "lincomb", "scalar_mul", "ite", "lt", "eq", "mul", "add", "and", "not",
+NEXT_OPS = ["snark_div", "unpack5", "ite_bits", "asfxp", "lazy_lt0", "lazy_eq0", "lt_k", "add_k", "assert_ge_k", "lshift_s", "rshift_s", "lazy_loop", "ign_on", "get", "set", "arr_ite", "arr_scale", "arr_add", "lincomb", "scalar_mul", "ite", "lt", "eq", "mul", "add", "and", "not",
             "tobits3", "frombits", "bit0", "pack_bi", "unpack_bi", "packbool", "assert_lt", "assert_eq", "arr_assert_eq", "val",
             "lazy_floordiv", "lazy_get", "lazy_mul", "lazy_lt", "lazy_bits", "guard_add", "bitlen_up", "floordiv", "mod", "abs", "neg",
             "ne", "le", "or", "xor", "arr_sub", "arr_adds", "vector_sub", "bit2", "assert_ne", "assert_le"]
@@ -1274,7 +1286,7 @@ def programs(ctx, depth=None):
         depth = int(os.environ.get("VERIF_XFEAT_DEPTH", "2"))
     key = (depth, ctx.thorough)
     if key not in _PROGRAM_CACHE:
-        nops = len(NEXT_OPS) if ctx.thorough else 43
+        nops = len(NEXT_OPS) if ctx.thorough else 44
         res = common.pool_map(_gen_task, [(f, depth, nops) for f in FIRST], init=_init, initargs=(REC.BN128,), force_fork=True)
         _PROGRAM_CACHE[key] = [p for r in res for p in r]
     return _PROGRAM_CACHE[key]
